@@ -160,7 +160,8 @@ fn main() {
 	let mut rng = Rng::new(args.seed);
 	let n_scen = if args.thorough { 400 } else { 24 } * args.scale as usize;
 	let mut reached_in: BTreeMap<String, u64> = BTreeMap::new();
-	if args.model == "chan" {
+	// the deterministic replay of KF-C01-1 belongs to property C01 only
+	if args.model == "chan" && std::env::var("VERIF_PROPERTY").map(|p| p == "C01").unwrap_or(true) {
 		match guarded(std::panic::AssertUnwindSafe(probe_fundee_limit)) { Ok(Some(m)) => rec.oracle_fail(m), Ok(None) => { rec.notes.insert("kf_c01_1".into(), "probe did not reproduce KF-C01-1 on this tree".into()); }, Err(p) => rec.oracle_fail(format!("fundee-limit probe panicked: {}", p.chars().take(200).collect::<String>())) }
 	}
 	for sc in 0..n_scen {
